@@ -29,6 +29,37 @@ def run_ctor(out, prop, tier):
 
 
 def run_inputs(out, prop, tier):
-    """C15 for object construction (stocks, lifetime models, systems, exports): the stock / system / export
-    engines snapshot every input around every call and tag changes {C15}; they are run from check_C15."""
+    """C15 for DataFrame import / export, lifetime models and stocks, systems and exports: the replayers of those
+    engines snapshot every input (DataFrames, parameter arrays, drivers, whole systems) around every call and tag
+    changes {C15}; here small models of those engines are run and only the {C15}-tagged problems are judged."""
+    from .checks_tables import tab_model, sig_tab
+    from .checks_stocks import stock_model, config_list, sig_stocks
+    from .checks_export import exp_model, sig_exp
+    from . import replay_tables, replay_stocks, replay_export
+    jobs = [
+        ([tab_model("import", 2, 0, set(range(1, 11))), tab_model("export", 2, 0, {1, 2, 3, 6})], replay_tables.run_vector, "tables", sig_tab),
+        ([stock_model(*c) for c in config_list("quick", out.seed)[:6]], replay_stocks.run_vector, "stocks", sig_stocks),
+        ([exp_model("export", {2}), exp_model("sankey", {1})], replay_export.run_vector, "export", sig_exp),
+    ]
+    for models, fn, engine, sig in jobs:
+        vectors = []
+        for m, res in core.run_models(models, seed=out.seed, parallel=6):
+            out.add_tlc(m, res)
+            vectors += res.vectors
+        if engine == "export":
+            vectors = [v for i, v in enumerate(vectors) if v["op"] == "export" or i % 40 == 0]
+        bad = core.replay_parallel(fn, vectors)
+        out.replayed += len(vectors)
+        out.extra.setdefault("input_snapshot_vectors", {})[engine] = len(vectors)
+        out.judge(core.for_property(_only_tagged(bad), prop), engine, sig)
     return []
+
+
+def _only_tagged(bad):
+    """keep only problems that carry an explicit {..} tag (untagged ones belong to the engine's own property)"""
+    out = []
+    for vec, probs in bad:
+        keep = [p for p in probs if "{C" in p or p.startswith("MACHINERY")]
+        if keep:
+            out.append((vec, keep))
+    return out
